@@ -35,6 +35,8 @@ OpsFull == { Op("full", B, "master", <<>>, 0, FALSE, <<K("elem", Q, "uint", V(3)
              Op("full", B, "master", <<>>, 0, FALSE, <<K("elem", Q, "uint", V(3), <<>>), K("elem", P, "uint", V(2), <<>>)>>),            \* invalid child
              Op("full", A, "master", <<>>, 0, FALSE, <<K("full", B, "master", <<>>, <<K("elem", U, "uint", V(1), <<>>)>>)>>),          \* invalid grandchild
              Op("full", R2, "master", <<>>, 0, FALSE, <<>>),
+             Op("full", B, "master", <<>>, 0, TRUE, <<K("elem", Q, "uint", V(3), <<>>)>>),                                               \* Full item with the unknown-size option: rejected
+             Op("end", B, "master", <<>>, 0, TRUE, <<>>),                                                                                  \* End with the unknown-size option: an ordinary End
              Op("full", R2, "master", <<>>, 0, FALSE, <<K("end", R2, "master", <<>>, <<>>)>>),                                            \* a child ending the Full master itself
              Op("full", B, "master", <<>>, 0, FALSE, <<K("end", B, "master", <<>>, <<>>), K("end", A, "master", <<>>, <<>>)>>),         \* ... and a master opened before the call
              Op("full", B, "master", <<>>, 0, FALSE, <<K("start", Cc, "master", <<>>, <<>>), K("elem", U, "uint", V(1), <<>>), K("end", Cc, "master", <<>>, <<>>)>>),   \* Start ... End run of children
@@ -70,9 +72,10 @@ Inv_C19 == hist # <<>> => (LastEv.res # "ok" => (w = prev /\ LastEv.dest_tail = 
 \* ... and the classification is the specific one
 Inv_C19_Class == hist # <<>> =>
    /\ (LastEv.unknown /\ LastEv.ty # "master" /\ LastEv.k # "start_unknown_dep") => LastEv.res = "size"
+   /\ (LastEv.unknown /\ LastEv.k = "full") => LastEv.res = "size"
    /\ (LastEv.k = "rawtag" /\ ~WellFormedId(LastEv.id) /\ ~LastEv.unknown) => LastEv.res = "id"
    /\ (LastEv.k = "end" /\ (prev.open = <<>> \/ prev.open[Len(prev.open)].id # LastEv.id)) => LastEv.res = "closing"
-   /\ (LastEv.k \in {"elem", "start", "full", "start_unknown_dep"} /\ KnownId(S3, LastEv.id) /\ ~(LastEv.unknown /\ LastEv.ty # "master")
+   /\ (LastEv.k \in {"elem", "start", "full", "start_unknown_dep"} /\ KnownId(S3, LastEv.id) /\ ~(LastEv.unknown /\ (LastEv.ty # "master" \/ LastEv.k = "full"))
          /\ ~PathAllows(S3, LastEv.id, Chain(prev))) => LastEv.res = "unexpected_tag"
 \* C09: one Full item = Start, the children, End (from the same state); deprecated call = option call
 Unfold(op) == <<[op EXCEPT !.k = "start", !.kids = <<>>]>>
